@@ -1439,6 +1439,12 @@ func sortedMapKeys(rv reflect.Value) []reflect.Value {
 		for b.Kind() == reflect.Interface && !b.IsNil() {
 			b = b.Elem()
 		}
+		// Keys of different kinds (interface-keyed maps) are grouped by kind
+		// first, so that the order is total: 1 and "1" print alike, and mixing
+		// numeric and textual comparison is not transitive
+		if ca, cb := mapKeyClass(a), mapKeyClass(b); ca != cb {
+			return ca < cb
+		}
 		switch {
 		case a.CanInt() && b.CanInt():
 			return a.Int() < b.Int()
@@ -1449,9 +1455,29 @@ func sortedMapKeys(rv reflect.Value) []reflect.Value {
 		case a.Kind() == reflect.String && b.Kind() == reflect.String:
 			return a.String() < b.String()
 		}
-		return fmt.Sprint(a) < fmt.Sprint(b)
+		sa, sb := fmt.Sprint(a), fmt.Sprint(b)
+		if sa != sb {
+			return sa < sb
+		}
+		return a.Type().String() < b.Type().String()
 	})
 	return keys
+}
+
+// mapKeyClass groups map keys for sorting: signed integers, unsigned integers,
+// floats, strings, everything else
+func mapKeyClass(v reflect.Value) int {
+	switch {
+	case v.CanInt():
+		return 0
+	case v.CanUint():
+		return 1
+	case v.CanFloat():
+		return 2
+	case v.Kind() == reflect.String:
+		return 3
+	}
+	return 4
 }
 
 // firstChar returns the first character (not byte) of s
